@@ -47,12 +47,12 @@ CLAIMS = {
         ref="DESIGN.md section 4 C08"),
     "C09": dict(
         technique="guarded summary of the comparison loop body (truth table over comparison atoms, both key modes); dictionary of compared quantities as terms; docstring/table agreement for applicability and defaults; effect-order check of the per-domain flag on row paths",
-        text="Static decision of the comparison semantics (strict, by magnitude, tp signed, per-key default), the compared quantities, per-kind applicability against the class documentation, the default table against the module documentation, the phase-silence condition, the subsystem/total roll-up, and the operands handed over by solve().",
+        text="Static decision of the comparison semantics (strict, by magnitude, tp signed, per-key default), the compared quantities, per-kind applicability against the class documentation, the default table against the module documentation, the phase-silence condition, the subsystem/total roll-up, the operands handed over by solve(), and that the configured [min, max] pairs reach the comparison unchanged (validator pass-through, single writer of _limits).",
         note=TB + "Not decided: the numeric values compared (C01-C03). The docstrings are the oracle for applicability; a documentation-only edit would be reported as a disagreement between code and documentation, which is what it is.",
         ref="DESIGN.md section 4 C09"),
     "C06": dict(
         technique="guard-row comparison of law summaries over the phase atoms (has-table / phase-listed); call-argument provenance; loop-carried dependence (reaching definitions over the phase loop's back edge)",
-        text="Static decision of the mapping phase -> behaviour for every kind, of the plumbing of the phase and per-node phase table from solve() to every law, of phase independence (no state carried between phase iterations except append-only accumulators), and of the phase-list / unknown-phase prologue.",
+        text="Static decision of the mapping phase -> behaviour for every kind, of the plumbing of the phase and per-node phase table from solve() to every law, of phase independence (no scalar, container or object state carried between phase iterations except append-only accumulators; a cache rebuilt only under a condition counts as carried), and of the phase-list / unknown-phase prologue.",
         note=TB + "Inner loops are assumed to execute at least once in the loop-carried analysis (a carry that exists only on a zero-trip inner loop is missed, never invented). Not decided: numeric values per phase.",
         ref="DESIGN.md section 4 C06"),
     "C10": dict(
@@ -62,38 +62,38 @@ CLAIMS = {
         ref="DESIGN.md section 4 C10"),
     "C11": dict(
         technique="path summaries of the eleven constructors (sign x magnitude arguments); magnitude taint against the parameters the law summaries read; range obligations as reference conditions discharged by propositional implication from the accepting path's guards; helper-function summaries",
-        text="Static decision that every parameter the laws treat as a non-negative magnitude is stored as abs(argument) on every accepting scalar path (the sign lemmas of the term algebra are thereby justified), that interpolator constants and arrays are magnitudes, that every documented range check is present and correctly oriented on every accepting path, and that the table / limits validators reject what they document.",
+        text="Static decision that every parameter the laws treat as a non-negative magnitude is stored as abs(argument) on every accepting scalar path (the sign lemmas of the term algebra are thereby justified), that interpolator constants and arrays are magnitudes, that every documented range check is present and correctly oriented on every accepting path, that a parameter which may be a table is validated on every accepting path that looks at it (an empty table does not pass for 0), that the interpolator classes never use their raw arguments, and that the table / limits validators reject what they document.",
         note=TB + "A resistance list is stored raw; the rule relies on the law taking abs() of the element (checked by C05-R4 / C03-R3). Consequences for solved systems (no negative loss, efficiency <= 100 %) are derived with C02, not separately decided.",
         ref="DESIGN.md section 4 C11"),
     "C12": dict(
         technique="writer / reader table agreement: keyword <- saved key maps of every constructor call in from_file, reader defaults vs constructor defaults, 'system' block keys, verbatim restore of registries, record structure of save(), version-gate comparison",
-        text="Static decision of schema agreement between save() and from_file(): every keyword of every kind is fed from the saved parameter of the same name with the constructor's default, registries are written from and restored to the registry of the same name unmodified, limits and mux input order are written from the right source, and a newer file is refused before anything is built.",
+        text="Static decision of schema agreement between save() and from_file(): every keyword of every kind is fed from the saved parameter of the same name with the constructor's default, registries are written from and restored to the registry of the same name unmodified, limits and mux input order are written from the right source, a newer file is refused before anything is built, and every constructor stores the parameter its interpolator was built from (so what is saved is what the component computes with).",
         note=TB + "Not decided: JSON fidelity of floats; equality of solved values after reload (follows from equal parameters and structure).",
         ref="DESIGN.md section 4 C12"),
     "C13": dict(
         technique="schema / signature agreement between the per-kind _cparams tables and the constructors (constants folded), isinstance-branch vs accepted-type agreement, shape of the generic loader and of LinReg's loader",
-        text="Static decision that for every kind the TOML schema and the constructor agree on keys, optionality, defaults and dict / list forms, that the generic loader raises KeyError / ValueError as documented before storing anything, builds cls(name, **params) and leaves the shared default limits alone, and that LinReg's own loader maps keys to keywords one to one.",
+        text="Static decision that for every kind the TOML schema and the constructor agree on keys, optionality, defaults and dict / list forms, that the generic loader raises KeyError / ValueError as documented before storing anything, builds cls(name, **params) from a parse of the file made on that call (no memoised or cached parse) and leaves the shared default limits alone, and that LinReg's own loader maps keys to keywords one to one.",
         note=TB + "Not decided: TOML parsing. Rectifier.vdrop is mandatory in the file although optional in the constructor (allowed: the file is stricter).",
         ref="DESIGN.md section 4 C13"),
     "C14": dict(
         technique="path summaries of the edit methods (helpers inlined, loops as one symbolic iteration, branch decisions ordered with effects); check-dominates-mutation obligations written as reference code and discharged by propositional implication over canonical atoms",
-        text="Static decision that on every accepting path of add_source / add_comp / change_comp / del_comp each conjunct of the well-formedness invariant is re-established by a check taken before the first modification, for all inputs and hence by induction for all edit histories; plus uniform child-type tables and single-parent re-linking.",
+        text="Static decision that on every accepting path of add_source / add_comp / change_comp / del_comp each conjunct of the well-formedness invariant is re-established by a check taken before the first modification, for all inputs and hence by induction for all edit histories; the constructor establishes its part (first component is a Source, rail differs from its name); plus uniform child-type tables and single-parent re-linking.",
         note=TB + "The obligation table (sa/editrules.py) is hand-written from the invariant, one reason per line; it is not derived. The invariant is assumed at entry of each method (induction hypothesis).",
         ref="DESIGN.md section 4 C14"),
     "C15": dict(
-        technique="effect-order analysis on path summaries: no raise / may-raise registry deletion after the first graph or registry modification; key-presence typestate; purity of validation helpers",
-        text="Static decision, on every path of the six edit / configuration methods, that a path which raises has not modified the graph, a registry or a parameter before, that registry deletions after a modification have an established key, and that the validation helpers are effect-free.",
-        note=TB + "warnings.warn is exempt (raises only under a user-installed error filter). Not decided: exceptions thrown by rustworkx for reasons the repository's own checks do not cover; subscript loads with an absent key.",
+        technique="effect-order analysis on path summaries: no raise, warning, may-raise registry deletion or may-raise registry read after the first graph or registry modification; key-presence typestate; purity of validation helpers",
+        text="Static decision, on every path of the six edit / configuration methods, that a path which raises or warns has not modified the graph, a registry or a parameter before, that registry deletions and reads after a modification have an established key, and that the validation helpers are effect-free.",
+        note=TB + "warnings.warn counts as a raise (it is one under -W error). Not decided: exceptions thrown by rustworkx for reasons the repository's own checks do not cover; subscript loads with an absent key are tracked for the four name registries only.",
         ref="DESIGN.md section 4 C15"),
     "C16": dict(
-        technique="registry lock-step and link/registry pairing on path summaries; order-provenance; loop-carried dependence; cache-refresh must-precede rule; column-routing tables of the configuration reports",
-        text="Static decision of the bookkeeping that makes results history-independent: name registries move in lock-step, the input-order registry holds indices and is updated with every link, index-hole-safe vector sizes, nothing carried from row to row, caches rebuilt unconditionally before every analysis, and each parameter / limit / per-phase value routed to the column that names it.",
-        note=TB + "Not decided: that every report 'succeeds' for every history in the presence of library exceptions; the Domain column of phases() (not part of the statement) is still derived from the topological order.",
+        technique="registry lock-step, key-is-a-component and link/registry pairing on path summaries; order-provenance; iteration-state analysis of the per-node loops (upward-exposed scalars, containers read at foreign slots); cache-refresh must-precede rule; column-routing tables of the configuration reports",
+        text="Static decision of the bookkeeping that makes results history-independent: name registries move in lock-step and only ever gain keys that are component names, the input-order registry holds indices and is updated with every link, index-hole-safe vector sizes, nothing carried from one node to the next in solve(), phases(), params()/limits(), tree() and save() except through the node's own parent, caches rebuilt unconditionally before every analysis, and each parameter / limit / per-phase value routed to the column that names it.",
+        note=TB + "Not decided: that every report 'succeeds' for every history in the presence of library exceptions.",
         ref="DESIGN.md section 4 C16"),
     "C17": dict(
         technique="transitive effect sets of the analyses over the call graph (object state, graph, node payloads); definite-alias store analysis on arguments and module constants with call-site re-classification; try/finally restore pairing",
         text="Static decision that no analysis writes anything on the System but the caches every analysis rebuilds, that no law method, report helper or diagram function stores into an argument, a definite alias of one or a shared module constant, and that every battery parameter written by batt_life is restored from its saved original in a finally clause enclosing all the writes.",
-        note=TB + "Alias reasoning is definite, not may: a write reaching a shared constant only through a container slot is missed (may-alias would false-alarm on _sys_init). Global state of matplotlib / tqdm is not considered.",
+        note=TB + "Alias reasoning is definite (plain assignment chains, one level of shallow copy), not may: a write reaching a shared constant only through a container slot or a call is missed (may-alias would false-alarm on _sys_init). Global state of matplotlib / tqdm is not considered.",
         ref="DESIGN.md section 4 C17"),
     "C18": dict(
         technique="path summary of the depletion-loop body with events in program order: store-before-call ordering, provenance of the callback's arguments, loop-condition / log-guard agreement by propositional implication",
